@@ -24,6 +24,7 @@ type Summary struct {
 	Probes       map[string]int  `json:"probes"`
 	YieldHits    map[string]int  `json:"yield_hits"`
 	SimNS        int64           `json:"sim_ns"`
+	SimS         float64         `json:"sim_s"` // sum in seconds (the ns sum can overflow over many long runs)
 	Steps        int64           `json:"steps"`
 	Inconclusive int             `json:"inconclusive"`
 	Samples      []any           `json:"samples"`
@@ -251,6 +252,7 @@ func workerBatch(t *testing.T, fam *Family, out string) {
 			sum.YieldHits[k] += v
 		}
 		sum.SimNS += res.SimNS
+		sum.SimS += float64(res.SimNS) / 1e9
 		sum.Steps += int64(res.Steps)
 		sum.Inconclusive += res.Inconclusive
 		if res.Nontrivial {
